@@ -441,14 +441,27 @@ class StubServer:
     one pending connection per iteration, each accepted request is handled in
     its own thread; shutdown() asks the loop to end and waits for it;
     server_close() closes the listening socket (pending connections are
-    dropped, the port is free) and joins the in-flight handler threads
-    (ThreadingMixIn.block_on_close).
+    dropped, the port is free) and joins the handler threads it tracks.  As
+    in socketserver.ThreadingMixIn a handler thread is tracked only if
+    block_on_close is true and the thread is not a daemon thread
+    (daemon_threads false); both attributes, and allow_reuse_address, are
+    read from the server class under test (server_attrs).  An untracked
+    handler simply goes on running under the scheduler after server_close().
     """
 
-    def __init__(self, sched, net, host, port, handler):
+    def __init__(self, sched, net, host, port, handler, server_attrs=None):
         self._s = sched
         self._net = net
+        attrs = server_attrs or {}
+        self.daemon_threads = bool(attrs.get('daemon_threads', False))
+        self.block_on_close = bool(attrs.get('block_on_close', True))
+        self.allow_reuse_address = bool(attrs.get('allow_reuse_address',
+                                                  False))
         if port in net.bound:
+            raise OSError(errno.EADDRINUSE, 'Address already in use')
+        if port in net.time_wait and not self.allow_reuse_address:
+            # connections the previous server closed are in TIME_WAIT; bind()
+            # succeeds only with SO_REUSEADDR
             raise OSError(errno.EADDRINUSE, 'Address already in use')
         net.bound[port] = self
         net.servers.append(self)
@@ -458,7 +471,8 @@ class StubServer:
         self.handler = handler
         self.listener = None
         self.backlog = collections.deque()
-        self.inflight = []
+        self.inflight = []      # every accepted request
+        self.tracked = []       # those server_close() waits for (_threads)
         self.closed = False
         self._shutdown_request = False
         self._is_shut_down = False
@@ -479,6 +493,10 @@ class StubServer:
                     req = self.backlog.popleft()
                     req.state = 'accepted'
                     self.inflight.append(req)
+                    self._net.time_wait.add(self.port)
+                    # ThreadingMixIn.process_request / _Threads.append
+                    if self.block_on_close and not self.daemon_threads:
+                        self.tracked.append(req)
                     s.yield_point('srv.accepted')
         finally:
             self._shutdown_request = False
@@ -499,8 +517,12 @@ class StubServer:
             del self._net.bound[self.port]
         while self.backlog:
             self.backlog.popleft().state = 'dropped'
-        s.block(lambda: all(r.state == 'done' for r in self.inflight), None,
+        s.block(lambda: all(r.state == 'done' for r in self.tracked), None,
                 'srv.close:join')
+
+    def handlers_running(self):
+        "Number of accepted requests whose handler has not ended"
+        return sum(1 for r in self.inflight if r.state != 'done')
 
 
 class Net:
@@ -509,6 +531,10 @@ class Net:
     def __init__(self):
         self.bound = {}
         self.servers = []
+        self.time_wait = set()  # ports that have served a connection
+
+    def handlers_running(self):
+        return sum(srv.handlers_running() for srv in self.servers)
 
 
 def client_request(sched, net, port, handle):
@@ -603,9 +629,19 @@ class Shims:
             s.yield_point('sleep')
             s.block(lambda: False, seconds, 'sleep:wait')
 
+        # the attributes of the real server class that decide what
+        # socketserver does with handler threads / the listening socket
+        srvcls = module.ThreadedHTTPServer
+        self.server_attrs = dict(
+            daemon_threads=getattr(srvcls, 'daemon_threads', False),
+            block_on_close=getattr(srvcls, 'block_on_close', True),
+            allow_reuse_address=getattr(srvcls, 'allow_reuse_address',
+                                        False))
+
         def make_server(logger, host, port, handler):
             s.yield_point('make_server')
-            return StubServer(s, shims.net, host, port, handler)
+            return StubServer(s, shims.net, host, port, handler,
+                              shims.server_attrs)
 
         self.repl = dict(
             queue=_ModuleShim(_real_queue, Queue=ShimQueue,
